@@ -33,8 +33,8 @@ META = dict(
                'reader.TdmsReader.read_raw_data', 'reader.TdmsReader.read_raw_data_for_channel', 'reader.TdmsReader._build_index',
                'reader._deduplicate_array', 'tdms.TdmsChannel._read_at_index (one-chunk cache)', 'tdms.TdmsFile.data_chunks',
                'tdms.TdmsChannel.data_chunks'],
-    bounds=dict(quick='3 files (2 segments x 2 chunks contiguous; same interleaved; 3 segments with chunk counts 1,3,2 and channel b '
-                      'absent from the middle one); histories of length 3 on the first file and 2 on the others over 7 operation '
+    bounds=dict(quick='4 files (2 segments x 2 chunks contiguous; same interleaved; 3 segments with chunk counts 1,3,2 and channel b '
+                      'absent from the middle one; one segment whose last chunk is declared partial by the lead-in); histories of length 3 on the first file and 2 on the others over 7 operation '
                       'kinds; index any valid position; windows offset in [0,n], length in {1,2}',
                 thorough='histories of length 4 on the first file, 3 on the others'),
     outside=['longer histories', 'threads', 'slices with steps (same code path as windows, see C04)', 'DAQmx files'],
@@ -55,6 +55,29 @@ def files():
     return [f1, f2, f3]
 
 
+def _build(task):
+    """(enc, {key: expected canonical values}).  File 3 is a 'declared partial chunk' file: the last chunk of its only segment
+    holds one of the two values of each channel and the lead-in says so (the segment is complete as declared, not cut by a crash),
+    which makes the reader split the chunk proportionally (TdmsSegment._compute_final_chunk_lengths, not-incomplete branch)."""
+    import copy
+    import struct
+    enc = s1.build(task['shape'])
+    full = {'a': s1.exp_canon(enc.channels[A]), 'b': s1.exp_canon(enc.channels[B])}
+    if task.get('declared_partial'):
+        sg = enc.segs[-1]
+        assert sg['chunk_size'] == 12 and sg['nchunks'] == 3
+        last = sg['data_start'] + 24
+        d = bytearray(enc.data)
+        new_tail = bytes(d[last:last + 4]) + bytes(d[last + 8:last + 10])
+        d[last:] = new_tail
+        nso = struct.unpack('<Q', bytes(d[sg['start'] + 12:sg['start'] + 20]))[0]
+        d[sg['start'] + 12:sg['start'] + 20] = struct.pack('<Q', nso - 6)
+        enc = copy.copy(enc)
+        enc.data = bytes(d)
+        full = {'a': full['a'][:-1], 'b': full['b'][:-1]}
+    return enc, full
+
+
 def tasks(tier, seed):
     ts = []
     for fi, sh in enumerate(files()):
@@ -62,6 +85,10 @@ def tasks(tier, seed):
         fixed = 2 if H >= 3 else 1
         for pre in itertools.product(range(len(OPS)), repeat=fixed):
             ts.append(dict(shape=sh, file=fi, H=H, prefix=list(pre)))
+    # file 3: declared partial final chunk (histories that start with an integer index or a window, on either channel)
+    f4 = [s1.seg([[A, 'full', 3, 2], [B, 'full', 2, 2]], 3)]
+    for pre in range(4):
+        ts.append(dict(shape=f4, file=3, H=2 if tier == 'quick' else 3, prefix=[pre], declared_partial=True))
     return ts + kdedup.tasks(tier)          # the offset arrays one channel's index may share with another's (_build_index)
 
 
@@ -81,9 +108,9 @@ def _chunks_fresh(enc):
     return ref
 
 
-def _oracle_ok(enc, ref):
+def _oracle_ok(enc, ref, fullmap=None):
     for key, path in (('a', A), ('b', B)):
-        full = s1.exp_canon(enc.channels[path])
+        full = s1.exp_canon(enc.channels[path]) if fullmap is None else fullmap[key]
         cat, run = [], 0
         for vals, off in ref['chan_' + key]:
             if off != run:
@@ -107,10 +134,10 @@ def _oracle_ok(enc, ref):
 class History:
     """Runs one history on one open file and reports the first deviation."""
 
-    def __init__(self, enc, ref, tf):
+    def __init__(self, enc, ref, tf, full=None):
         self.enc, self.ref, self.tf = enc, ref, tf
         self.ch = {'a': tf['g']['a'], 'b': tf['g']['b']}
-        self.full = {'a': s1.exp_canon(enc.channels[A]), 'b': s1.exp_canon(enc.channels[B])}
+        self.full = full or {'a': s1.exp_canon(enc.channels[A]), 'b': s1.exp_canon(enc.channels[B])}
         self.tc = {'a': enc.channels[A].tcode, 'b': enc.channels[B].tcode}
         self.its = {'chan_a': self.ch['a'].data_chunks(), 'chan_b': self.ch['b'].data_chunks(), 'file': tf.data_chunks()}
         self.pos = {'chan_a': 0, 'chan_b': 0, 'file': 0}
@@ -184,10 +211,10 @@ def run_task(task):
     from nptdms import TdmsFile
     if task.get('kind') == 'dedup':
         return kdedup.run_task(task)
-    enc = s1.build(task['shape'])
+    enc, full = _build(task)
     ref = _chunks_fresh(enc)
-    bad = _oracle_ok(enc, ref)
-    na, nb = len(enc.channels[A]), len(enc.channels[B])
+    bad = _oracle_ok(enc, ref, full)
+    na, nb = len(full['a']), len(full['b'])
     H, prefix = task['H'], task['prefix']
 
     def fn(ctx):
@@ -195,7 +222,7 @@ def run_task(task):
             ctx.fail('fresh-file-streams-differ-from-oracle', why=bad)
         tf = TdmsFile.open(io.BytesIO(enc.data))
         try:
-            h = History(enc, ref, tf)
+            h = History(enc, ref, tf, full)
             kinds = []
             for step in range(H):
                 if step < len(prefix):
@@ -268,14 +295,14 @@ def replay(art):
     task, inp = art['task'], art['inputs']
     if task.get('kind') == 'dedup':
         return kdedup.replay('C05', art)
-    enc = s1.build(task['shape'])
+    enc, full = _build(task)
     ref = _chunks_fresh(enc)
-    bad = _oracle_ok(enc, ref)
+    bad = _oracle_ok(enc, ref, full)
     if bad:
         return dict(sig=signature(dict(task=task, what='fresh-file-streams-differ-from-oracle')), why=bad)
     tf = TdmsFile.open(io.BytesIO(enc.data))
     try:
-        h = History(enc, ref, tf)
+        h = History(enc, ref, tf, full)
         for step in range(task['H']):
             if ('op%d' % step) not in inp:
                 break
